@@ -120,7 +120,7 @@ def aero_states(rep, tier, timeout):
             # kernel atoms are uninterpreted: the mirrored-force statement needs the kernel mirror lemma, added as C07 work
             obs = [o for o in obs if o.meta["kind"] != "Fm"]
             run_obligations(rep, "VLM states half vs full [%s]" % lab, obs, timeout, replay=rp, family=lambda ob: "aero states: " + ob.meta["family"],
-                            fixed={"alpha": 3.0, "v": 10.0, "rho": 1.1, "y_root": -0.5}, levels=(1,))
+                            fixed={"alpha": (3.0, -3.0), "v": 10.0, "rho": 1.1, "y_root": -0.5}, levels=(1,))
 
 
 def replay_aero(ob, env, sh, sf, m, nx, nyh, root_on_plane):
@@ -194,8 +194,10 @@ def conventions(rep, tier, timeout):
 
         def pair(mod, cls, over=None, **kw):
             over = over or {}
-            sh = K.surface(nx, nyh, True, **over)
-            sf = K.surface(nx, nyf, False, **over)
+            # the flags arrive as NumPy booleans (the result of a comparison) in one size: components must agree on truthiness
+            tflag, fflag = (np.True_, np.False_) if (nx, nyh) == (2, 3) else (True, False)
+            sh = K.surface(nx, nyh, tflag, **over)
+            sf = K.surface(nx, nyf, fflag, **over)
             a = SymComp(mod, cls, surface=sh, **kw)
             b = SymComp(mod, cls, surface=sf, **kw)
             rep.encode(type(a.comp))
@@ -474,7 +476,7 @@ def geometry_half_full(rep, tier, timeout):
                 nominal["y[%d]" % j] = float(cmh[0, j, 1])
             run_obligations(rep, "%s half vs full [%dx%d]" % (cls, nx, nyh), obs, timeout, replay=rp, levels=(1, 2), relate=[],
                             family=lambda ob: "geometry: half model vs full model, " + ob.meta["family"], nominal=nominal,
-                            fixed={"sweep": 20.0, "dihedral": 10.0, "span": 12.0})
+                            fixed={"sweep": (20.0, -20.0), "dihedral": (10.0, -10.0), "span": 12.0})
         # Taper keeps its mesh as an option: concrete meshes swapped for the symbolic ones after set-up
         a = SymComp(G, "Taper", val=1.0, mesh=cmh, symmetry=True, ref_axis_pos=0.25)
         b = SymComp(G, "Taper", val=1.0, mesh=cmf, symmetry=False, ref_axis_pos=0.25)
